@@ -358,8 +358,10 @@ def snapshot(rc, w, ctl, exc):
     mods = sorted([n, m["class"], m["value"]] for n, m in w.modules.items() if m["dyn"])
     links = sorted([a, og, b, ig] for (a, og), (b, ig) in w.links.items())
     nc = sorted([k, v.gate_idx, v.mac_address, v.route_count] for k, v in ctl._neighbor_cache.items())
-    un = sorted([k, v.dest_prefix, v.prefix_len, v.next_hop_ip, v.interface]
-                for k, v in ctl._unresolved_arp_queries_cache.items())
+    # (a repaired controller may keep several pending routes per next hop: one row each)
+    un = sorted([k, r.dest_prefix, r.prefix_len, r.next_hop_ip, r.interface]
+                for k, v in ctl._unresolved_arp_queries_cache.items()
+                for r in (v if isinstance(v, (list, tuple)) else [v]))
     gc = sorted([k, v] for k, v in ctl._module_gate_count_cache.items())
     s = {"lpm": lpm, "mods": mods, "links": links, "nc": nc, "un": un, "gc": gc,
          "pings": w.pings, "calls": w.calls}
